@@ -238,13 +238,246 @@ Proof.
   rewrite skipn_length_app. reflexivity.
 Qed.
 
+(* ---------------- 1b. the real table search (tsearch / read_code_at) ---------------- *)
+(* When every stride finds enough real bits the stride search walks the code exactly and
+   returns the prefix whose code heads the stream, whatever [tb] (hence whatever the
+   position of the 64-bit word boundary). *)
+Lemma skipn_skipn' {A} : forall (a b : nat) (l : list A), skipn b (skipn a l) = skipn (a + b) l.
+Proof.
+  induction a as [|a IH]; intros b l; [reflexivity|].
+  destruct l as [|x l]; [destruct b; reflexivity|]. cbn [skipn Nat.add]. apply IH.
+Qed.
+
+Lemma compatible_nil_r c : compatible c [] = true.
+Proof. destruct c; reflexivity. Qed.
+
+Lemma is_prefix_compatible : forall c l, is_prefix_of c l = true -> compatible c l = true.
+Proof.
+  induction c as [|x c IH]; intros l H; [reflexivity|].
+  destruct l as [|y l]; [reflexivity|]. cbn [is_prefix_of compatible] in *.
+  apply andb_true_iff in H. destruct H as [-> H]. cbn [andb]. auto.
+Qed.
+
+Lemma compatible_skipn : forall d c l, compatible c l = true ->
+  compatible (skipn d c) (skipn d l) = true.
+Proof.
+  induction d as [|d IH]; intros c l H; [exact H|].
+  destruct c as [|x c]; [reflexivity|]. destruct l as [|y l]; [apply compatible_nil_r|].
+  cbn [compatible] in H. apply andb_true_iff in H. cbn [skipn]. apply IH. tauto.
+Qed.
+
+Lemma compatible_firstn : forall t c l, compatible c l = true -> compatible c (firstn t l) = true.
+Proof.
+  induction t as [|t IH]; intros c l H; [apply compatible_nil_r|].
+  destruct c as [|x c]; [reflexivity|]. destruct l as [|y l]; [reflexivity|].
+  cbn [compatible firstn] in *. apply andb_true_iff in H. destruct H as [-> H]. cbn [andb]. auto.
+Qed.
+
+(* agreement on the first d bits and then on the next t bits *)
+Lemma compatible_step : forall d t c l,
+  compatible c (firstn d l) = true ->
+  compatible (skipn d c) (firstn t (skipn d l)) = true ->
+  compatible c (firstn (d + t) l) = true.
+Proof.
+  induction d as [|d IH]; intros t c l H1 H2; [exact H2|].
+  destruct c as [|x c]; [reflexivity|]. destruct l as [|y l]; [reflexivity|].
+  cbn [Nat.add firstn skipn compatible] in *.
+  apply andb_true_iff in H1. destruct H1 as [-> H1]. cbn [andb]. auto.
+Qed.
+
+(* a prefix of P and a word compatible with P are comparable *)
+Lemma prefix_compatible_cases : forall P a b,
+  is_prefix_of a P = true -> compatible b P = true ->
+  is_prefix_of a b = true \/ is_prefix_of b a = true.
+Proof.
+  induction P as [|z P IH]; intros a b Ha Hb.
+  - destruct a; [left; reflexivity|discriminate].
+  - destruct a as [|x a]; [left; reflexivity|]. destruct b as [|y b]; [right; reflexivity|].
+    cbn [is_prefix_of compatible] in *.
+    apply andb_true_iff in Ha. destruct Ha as [Hx Ha]. apply Bool.eqb_prop in Hx. subst x.
+    apply andb_true_iff in Hb. destruct Hb as [Hy Hb]. apply Bool.eqb_prop in Hy. subst y.
+    rewrite Bool.eqb_reflx. cbn [andb]. exact (IH a b Ha Hb).
+Qed.
+
+Lemma is_prefix_of_firstn_app : forall c d s, (length c <= d)%nat ->
+  is_prefix_of c (firstn d (c ++ s)) = true.
+Proof.
+  induction c as [|x c IH]; intros d s H; [reflexivity|].
+  cbn [length] in H. destruct d as [|d]; [lia|].
+  cbn [app firstn is_prefix_of]. rewrite Bool.eqb_reflx. cbn [andb]. apply IH. lia.
+Qed.
+
+Lemma max_code_len_cons q t :
+  max_code_len (q :: t) = Nat.max (length (p_code q)) (max_code_len t).
+Proof. reflexivity. Qed.
+
+Lemma max_code_len_In : forall ps p, In p ps -> (length (p_code p) <= max_code_len ps)%nat.
+Proof.
+  induction ps as [|q t IH]; intros p H; [destruct H|].
+  rewrite max_code_len_cons. destruct H as [->|H]; [lia|]. specialize (IH p H). lia.
+Qed.
+
+Lemma max_code_len_bound : forall ps k,
+  Forall (fun p => (length (p_code p) <= k)%nat) ps -> (max_code_len ps <= k)%nat.
+Proof.
+  induction ps as [|q t IH]; intros k H; [cbn; lia|].
+  inversion H; subst. rewrite max_code_len_cons. specialize (IH k H3). lia.
+Qed.
+
+Lemma max_code_len_filter f : forall l, (max_code_len (filter f l) <= max_code_len l)%nat.
+Proof.
+  induction l as [|q t IH]; [cbn; lia|].
+  cbn [filter]. destruct (f q); rewrite ?max_code_len_cons; lia.
+Qed.
+
+Lemma pairwise_filter f : forall l,
+  pairwise_nonprefix (map p_code l) -> pairwise_nonprefix (map p_code (filter f l)).
+Proof.
+  induction l as [|q t IH]; intros H; [exact I|].
+  cbn [map pairwise_nonprefix] in H. destruct H as [HF HP].
+  cbn [filter]. destruct (f q); [|exact (IH HP)].
+  cbn [map pairwise_nonprefix]. split; [|exact (IH HP)].
+  rewrite Forall_forall in *. intros c Hc. apply HF.
+  apply in_map_iff in Hc. destruct Hc as (r & <- & Hr). apply filter_In in Hr.
+  apply in_map. tauto.
+Qed.
+
+(* in a pairwise non-prefix list with at least two entries every entry has a rival *)
+Lemma pairwise_other : forall cands p,
+  pairwise_nonprefix (map p_code cands) -> In p cands -> (2 <= length cands)%nat ->
+  exists q, In q cands /\ nonprefix2 (p_code p) (p_code q).
+Proof.
+  intros [|c1 [|c2 r]] p HP Hin Hl; cbn [length] in Hl; try lia.
+  cbn [map pairwise_nonprefix] in HP. destruct HP as [HF _]. rewrite Forall_forall in HF.
+  destruct Hin as [->|Hin].
+  - exists c2. split; [right; left; reflexivity|]. apply HF. left. reflexivity.
+  - exists c1. split; [left; reflexivity|].
+    destruct (HF (p_code p) (in_map p_code (c2 :: r) p Hin)) as [A B]. split; assumption.
+Qed.
+
+(* while several candidates remain the search has not reached the end of p's code *)
+Lemma several_cands_depth p s0 cands dpt :
+  In p cands -> pairwise_nonprefix (map p_code cands) ->
+  Forall (fun q => compatible (p_code q) (firstn dpt (p_code p ++ s0)) = true) cands ->
+  (2 <= length cands)%nat -> (dpt < length (p_code p))%nat.
+Proof.
+  intros Hin HP HC Hl.
+  destruct (pairwise_other cands p HP Hin Hl) as (q & Hq & N1 & N2).
+  destruct (Nat.lt_ge_cases dpt (length (p_code p))) as [H|H]; [exact H|exfalso].
+  rewrite Forall_forall in HC. specialize (HC q Hq).
+  pose proof (is_prefix_of_firstn_app (p_code p) dpt s0 H) as Hp.
+  destruct (prefix_compatible_cases _ _ _ Hp HC); congruence.
+Qed.
+
+Lemma tsearch_single fuel tb q dpt s : tsearch fuel tb [q] dpt s = Ok q.
+Proof. destruct fuel; reflexivity. Qed.
+
+Lemma tsearch_ok tb p s0 : forall fuel cands dpt,
+  In p cands -> pairwise_nonprefix (map p_code cands) ->
+  Forall (fun q => compatible (p_code q) (firstn dpt (p_code p ++ s0)) = true) cands ->
+  (max_code_len cands - dpt <= 6 * fuel)%nat ->
+  (Nat.min 6 (max_code_len cands - length (p_code p)) <= length s0)%nat ->
+  tsearch fuel tb cands dpt (skipn dpt (p_code p ++ s0)) = Ok p.
+Proof.
+  induction fuel as [|f IH]; intros cands dpt Hin HP HC Hfuel Hen.
+  - destruct cands as [|q [|q2 r]]; [destruct Hin| |].
+    + destruct Hin as [->|[]]. reflexivity.
+    + pose proof (several_cands_depth p s0 _ dpt Hin HP HC) as Hd. cbn [length] in Hd.
+      pose proof (max_code_len_In _ p Hin). lia.
+  - destruct cands as [|q [|q2 r]]; [destruct Hin| |].
+    + destruct Hin as [->|[]]. reflexivity.
+    + cbn [tsearch]. set (cands := q :: q2 :: r) in *.
+      assert (Hd : (dpt < length (p_code p))%nat).
+      { apply (several_cands_depth p s0 cands dpt Hin HP HC). unfold cands. cbn [length]. lia. }
+      pose proof (max_code_len_In _ p Hin) as HM.
+      clearbody cands. cbv zeta.
+      set (full := p_code p ++ s0) in *.
+      assert (Ha : length (skipn dpt full) = (length (p_code p) + length s0 - dpt)%nat).
+      { rewrite skipn_length. unfold full. rewrite app_length. reflexivity. }
+      set (t := Nat.min 6 (max_code_len cands - dpt)) in *.
+      assert (Ht : (1 <= t <= length (skipn dpt full))%nat) by lia.
+      destruct (Nat.eqb (length (skipn dpt full)) 0) eqn:Ea; [apply Nat.eqb_eq in Ea; lia|].
+      set (j := N.to_nat ((tb - Nlen (skipn dpt full)) mod 64)). clearbody j.
+      assert (Hbr : (if Nat.leb (t + j) 64 then Nat.min t (length (skipn dpt full)) else t) = t).
+      { destruct (Nat.leb (t + j) 64); [lia|reflexivity]. }
+      assert (Hchk : negb (Nat.leb (t + j) 64) && negb (Nat.ltb (64 - j) (length (skipn dpt full))) = false).
+      { destruct (Nat.leb (t + j) 64) eqn:E1; [reflexivity|]. apply Nat.leb_gt in E1.
+        cbn [negb andb]. apply negb_false_iff. apply Nat.ltb_lt. lia. }
+      rewrite Hchk, Hbr, Nat.eqb_refl.
+      rewrite firstn_app_le by lia. rewrite skipn_skipn'.
+      apply IH.
+      * apply filter_In. split; [exact Hin|].
+        apply compatible_firstn. apply compatible_skipn. apply is_prefix_compatible.
+        apply is_prefix_of_app.
+      * apply pairwise_filter. exact HP.
+      * rewrite Forall_forall in *. intros c Hc. apply filter_In in Hc. destruct Hc as [Hc1 Hc2].
+        apply compatible_step; [exact (HC c Hc1)|exact Hc2].
+      * pose proof (max_code_len_filter
+          (fun p0 => compatible (skipn dpt (p_code p0)) (firstn t (skipn dpt full))) cands). lia.
+      * pose proof (max_code_len_filter
+          (fun p0 => compatible (skipn dpt (p_code p0)) (firstn t (skipn dpt full))) cands). lia.
+Qed.
+
+(* the key lemma: enough real bits after the code -> the real search finds p, for every tb.
+   "Enough" = min 6 (longest code - this code): at least 6 bits, or fewer when no stride
+   can reach further than the longest code.  198 = 6 * 33 (the fuel of read_code_at). *)
+Theorem read_code_at_enough : forall tb ps p s,
+  table_ok ps = true -> (max_code_len ps <= 198)%nat -> In p ps ->
+  (Nat.min 6 (max_code_len ps - length (p_code p)) <= length s)%nat ->
+  read_code_at tb ps (p_code p ++ s) = Ok (p, s).
+Proof.
+  intros tb ps p s Hok HM Hin Hen. unfold read_code_at.
+  pose proof (tsearch_ok tb p s 33 ps 0 Hin (table_ok_pairwise ps Hok)) as T.
+  cbn [skipn firstn] in T. rewrite T.
+  - cbn [bind]. rewrite skipn_length_app.
+    replace (Nat.leb (length (p_code p)) (length (p_code p ++ s))) with true; [reflexivity|].
+    symmetry. apply Nat.leb_le. rewrite app_length. lia.
+  - apply Forall_forall. intros q _. apply compatible_nil_r.
+  - lia.
+  - exact Hen.
+Qed.
+
+Corollary read_code_at_6 : forall tb ps p s,
+  table_ok ps = true -> (max_code_len ps <= 198)%nat -> In p ps -> (6 <= length s)%nat ->
+  read_code_at tb ps (p_code p ++ s) = Ok (p, s).
+Proof. intros. apply read_code_at_enough; try assumption. lia. Qed.
+
 (* ---------------- 2. well-formed tables, coverage ---------------- *)
 Definition wf_prefix (w : N) (p : prefix) : Prop :=
   p_gcd p >= 1 /\ p_lower p <= p_upper p /\ p_upper p <= umax w /\
   (forall j, p_jump p = Some j -> j <= 24).
 
+(* 198 = 6 * 33: the stride search of read_code_at (fuel 33, strides of 6) can reach every
+   code.  Every parsed table satisfies it (5-bit code length field: lengths <= 31). *)
 Definition wf_table (w : N) (ps : list prefix) : Prop :=
-  table_ok ps = true /\ Forall (wf_prefix w) ps.
+  table_ok ps = true /\ Forall (wf_prefix w) ps /\ (max_code_len ps <= 198)%nat.
+
+Lemma wf_table_of_code_lens w ps :
+  table_ok ps = true -> Forall (wf_prefix w) ps ->
+  Forall (fun p => (length (p_code p) <= 31)%nat) ps -> wf_table w ps.
+Proof.
+  intros H1 H2 H3. split; [exact H1|]. split; [exact H2|].
+  pose proof (max_code_len_bound ps 31 H3). lia.
+Qed.
+
+(* enough real bits follow the body for the last table lookup of the body: 6 bits, or
+   fewer when the longest code is shorter than a stride *)
+Definition enough_rest (ps : list prefix) (rest : bits) : Prop :=
+  (Nat.min 6 (max_code_len ps) <= length rest)%nat.
+
+Lemma enough_rest_6 ps rest : 6 <= Nlen rest -> enough_rest ps rest.
+Proof. unfold enough_rest, Nlen. lia. Qed.
+
+Lemma enough_rest_8 ps rest : 8 <= Nlen rest -> enough_rest ps rest.
+Proof. unfold enough_rest, Nlen. lia. Qed.
+
+Lemma read_code_at_rest w tb ps rest p s :
+  wf_table w ps -> enough_rest ps rest -> In p ps -> (length rest <= length s)%nat ->
+  read_code_at tb ps (p_code p ++ s) = Ok (p, s).
+Proof.
+  intros (H1 & _ & H3) He Hin Hl. apply read_code_at_enough; try assumption.
+  unfold enough_rest in He. lia.
+Qed.
 
 Definition covered (ps : list prefix) (u : N) : Prop :=
   exists p, find_prefix ps u = Some p /\ (u - p_lower p) mod p_gcd p = 0.
@@ -362,20 +595,20 @@ Proof.
   - intros (b & He & ->). rewrite (enc_nil _ _ He). auto.
 Qed.
 
-Lemma read_blocks_zero fuel w ps s : read_blocks fuel w ps 0 s = ([], s, None, SOk).
+Lemma read_blocks_zero fuel w tb ps s : read_blocks fuel w tb ps 0 s = ([], s, None, SOk).
 Proof. destruct fuel; reflexivity. Qed.
 
-Lemma read_blocks_gen w ps rest : wf_table w ps ->
+Lemma read_blocks_gen w tb ps rest : wf_table w ps -> enough_rest ps rest ->
   forall fuel room us b,
   Forall (good ps) us -> Nlen us < 2 ^ 24 -> enc ps us b ->
   room <= Nlen us -> (N.to_nat room <= fuel)%nat ->
   exists s' inc',
-    read_blocks fuel w ps room (b ++ rest) = (firstn (N.to_nat room) us, s', inc', SOk)
+    read_blocks fuel w tb ps room (b ++ rest) = (firstn (N.to_nat room) us, s', inc', SOk)
     /\ stream_inv ps inc' (skipn (N.to_nat room) us) s' rest.
 Proof.
-  intros [Htab Hwf].
+  intros Hwft Hrest. pose proof Hwft as (Htab & Hwf & Hml).
   assert (Zero : forall fuel us b, enc ps us b -> exists s' inc',
-    read_blocks fuel w ps 0 (b ++ rest) = (firstn (N.to_nat 0) us, s', inc', SOk)
+    read_blocks fuel w tb ps 0 (b ++ rest) = (firstn (N.to_nat 0) us, s', inc', SOk)
     /\ stream_inv ps inc' (skipn (N.to_nat 0) us) s' rest).
   { intros fuel us b He. exists (b ++ rest), None. rewrite read_blocks_zero.
     split; [reflexivity|]. exists b. auto. }
@@ -413,7 +646,9 @@ Proof.
     assert (Henc' : enc ps tl r).
     { exists f. split; [|exact Er]. unfold tl. rewrite skipn_length. lia. }
     assert (Hgtl : Forall (good ps) tl) by (apply Forall_skipn; exact Hgt).
-    rewrite <- !app_assoc. rewrite read_code_app by assumption. rewrite Ej.
+    rewrite <- !app_assoc.
+    rewrite (read_code_at_rest w tb ps rest p) by (try assumption; rewrite !app_length; lia).
+    rewrite Ej.
     rewrite varint_roundtrip; [| destruct Hwp as (_ & _ & _ & Hj); auto | lia].
     cbv zeta. rewrite Hsplit.
     destruct (room <? N.of_nat extra + 1) eqn:Elt.
@@ -437,7 +672,9 @@ Proof.
   - (* a single number *)
     destruct (write_body_fuel f ps t) as [r| |] eqn:Er; cbn [bind] in Hw; try discriminate.
     inversion Hw; subst b; clear Hw.
-    rewrite <- !app_assoc. rewrite read_code_app by assumption. rewrite Ej.
+    rewrite <- !app_assoc.
+    rewrite (read_code_at_rest w tb ps rest p) by (try assumption; rewrite !app_length; lia).
+    rewrite Ej.
     assert (Hu1 : Forall (in_range p) [u]) by (constructor; [split; assumption|constructor]).
     pose proof (read_offsets_all w p (r ++ rest) [u] Hwp Hu1) as R1.
     cbn [length flat_map] in R1. rewrite app_nil_r in R1. rewrite R1.
@@ -451,11 +688,11 @@ Qed.
 Lemma body_roundtrip_good w ps us b :
   wf_table w ps -> Forall (good ps) us -> Nlen us < 2 ^ 24 ->
   enc ps us b ->
-  forall rest fuel, (length us <= fuel)%nat ->
-  read_blocks fuel w ps (Nlen us) (b ++ rest) = (us, rest, None, SOk).
+  forall tb rest fuel, enough_rest ps rest -> (length us <= fuel)%nat ->
+  read_blocks fuel w tb ps (Nlen us) (b ++ rest) = (us, rest, None, SOk).
 Proof.
-  intros Hwf Hg Hlen He rest fuel Hfuel.
-  destruct (read_blocks_gen w ps rest Hwf fuel (Nlen us) us b Hg Hlen He) as (s' & inc' & Hrb & Hinv).
+  intros Hwf Hg Hlen He tb rest fuel Hrest Hfuel.
+  destruct (read_blocks_gen w tb ps rest Hwf Hrest fuel (Nlen us) us b Hg Hlen He) as (s' & inc' & Hrb & Hinv).
   - lia.
   - rewrite Nlen_to_nat. exact Hfuel.
   - rewrite Nlen_to_nat, firstn_all in Hrb. rewrite Nlen_to_nat, skipn_all in Hinv.
@@ -466,8 +703,8 @@ Qed.
 Theorem body_roundtrip : forall w ps us b,
   wf_table w ps -> disjoint_table ps -> Forall (covered ps) us -> Nlen us < 2 ^ 24 ->
   write_body_fuel (length us) ps us = Ok b ->
-  forall rest fuel, (length us <= fuel)%nat ->
-  read_blocks fuel w ps (Nlen us) (b ++ rest) = (us, rest, None, SOk).
+  forall tb rest fuel, enough_rest ps rest -> (length us <= fuel)%nat ->
+  read_blocks fuel w tb ps (Nlen us) (b ++ rest) = (us, rest, None, SOk).
 Proof.
   intros w ps us b Hwf D Hc Hlen Hw. apply body_roundtrip_good; try assumption.
   - apply Forall_covered_good; assumption.
@@ -479,29 +716,30 @@ Corollary write_body_roundtrip : forall w ps us bb,
   wf_table w ps -> disjoint_table ps -> Forall (covered ps) us -> Nlen us < 2 ^ 24 ->
   write_body ps us = Ok bb ->
   exists b, bb = pad8 b /\
-  forall rest fuel, (length us <= fuel)%nat ->
-  read_blocks fuel w ps (Nlen us) (bb ++ rest)
+  forall tb rest fuel, enough_rest ps rest -> (length us <= fuel)%nat ->
+  read_blocks fuel w tb ps (Nlen us) (bb ++ rest)
   = (us, repeat false (N.to_nat (pad_len (Nlen b))) ++ rest, None, SOk).
 Proof.
   intros w ps us bb Hwf D Hc Hlen Hw. unfold write_body in Hw.
   destruct (write_body_fuel (length us) ps us) as [b| |] eqn:E; cbn [bind] in Hw; try discriminate.
   inversion Hw; subst bb. exists b. split; [reflexivity|].
-  intros rest fuel Hfuel. unfold pad8. rewrite <- app_assoc.
-  apply body_roundtrip; assumption.
+  intros tb rest fuel Hrest Hfuel. unfold pad8. rewrite <- app_assoc.
+  apply body_roundtrip; try assumption.
+  unfold enough_rest in *. rewrite app_length. lia.
 Qed.
 
 (* ---------------- 4/5. one batch from an arbitrary reader state ---------------- *)
-Lemma read_batch_gen w ps rest : wf_table w ps ->
+Lemma read_batch_gen w tb ps rest : wf_table w ps -> enough_rest ps rest ->
   forall us inc s limit eoi,
   Forall (good ps) us -> Nlen us < 2 ^ 24 -> stream_inv ps inc us s rest ->
   0 < Nlen us -> 0 < limit ->
   let m := N.to_nat (N.min (Nlen us) limit) in
   exists s' inc',
-    read_batch w ps (Nlen us) inc limit eoi s
+    read_batch w tb ps (Nlen us) inc limit eoi s
     = mkBatch (firstn m us) s' inc' (Nlen us <=? limit) SOk
     /\ stream_inv ps inc' (skipn m us) s' rest.
 Proof.
-  intros Hwf us inc s limit eoi Hg Hlen Hinv Hn Hlim m.
+  intros Hwf Hrest us inc s limit eoi Hg Hlen Hinv Hn Hlim m.
   unfold read_batch. cbv zeta.
   set (bs := N.min (Nlen us) limit) in *.
   assert (Hbs : 0 < bs <= Nlen us) by lia.
@@ -509,7 +747,7 @@ Proof.
   destruct inc as [[p rem]|]; cbn [stream_inv] in Hinv.
   - destruct Hinv as (run & tl & b & Hus & Hrl & Hrem & Hin & Hrun & Henc & ->).
     assert (Hwp : wf_prefix w p).
-    { destruct Hwf as [_ Hwf]. rewrite Forall_forall in Hwf. auto. }
+    { destruct Hwf as (_ & Hwf & _). rewrite Forall_forall in Hwf. auto. }
     assert (Hrl' : length run = N.to_nat rem) by (unfold Nlen in Hrl; lia).
     assert (Hlt : Nlen us = rem + Nlen tl) by (rewrite Hus, Nlen_app; lia).
     rewrite (read_offsets_flat w p (b ++ rest) Hwp run Hrun (N.to_nat (N.min rem bs))) by lia.
@@ -523,7 +761,7 @@ Proof.
       replace (rem - rem =? 0) with true by (symmetry; apply N.eqb_eq; lia).
       assert (Hgtl : Forall (good ps) tl).
       { rewrite Hus in Hg. apply Forall_app in Hg. tauto. }
-      destruct (read_blocks_gen w ps rest Hwf (N.to_nat (bs - rem)) (bs - rem) tl b)
+      destruct (read_blocks_gen w tb ps rest Hwf Hrest (N.to_nat (bs - rem)) (bs - rem) tl b)
         as (s' & inc' & Hrb & Hinv'); try assumption; try lia.
       rewrite Hrb. exists s', inc'. split.
       * f_equal.
@@ -546,7 +784,7 @@ Proof.
         split; [lia|]. split; [assumption|]. split; [apply Forall_skipn; assumption|].
         split; [assumption|reflexivity].
   - destruct Hinv as (b & Henc & ->).
-    destruct (read_blocks_gen w ps rest Hwf (N.to_nat bs) bs us b)
+    destruct (read_blocks_gen w tb ps rest Hwf Hrest (N.to_nat bs) bs us b)
       as (s' & inc' & Hrb & Hinv'); try assumption; try lia.
     rewrite Hrb. exists s', inc'. split; [reflexivity|exact Hinv'].
 Qed.
@@ -555,10 +793,10 @@ Qed.
 Theorem batch_roundtrip : forall w ps us b,
   wf_table w ps -> disjoint_table ps -> Forall (covered ps) us -> Nlen us < 2 ^ 24 ->
   write_body_fuel (length us) ps us = Ok b ->
-  forall rest limit eoi, Nlen us <= limit ->
-  read_batch w ps (Nlen us) None limit eoi (b ++ rest) = mkBatch us rest None true SOk.
+  forall tb rest limit eoi, enough_rest ps rest -> Nlen us <= limit ->
+  read_batch w tb ps (Nlen us) None limit eoi (b ++ rest) = mkBatch us rest None true SOk.
 Proof.
-  intros w ps us b Hwf D Hc Hlen Hw rest limit eoi Hlim.
+  intros w ps us b Hwf D Hc Hlen Hw tb rest limit eoi Hrest Hlim.
   destruct us as [|u t].
   - cbn [length write_body_fuel] in Hw. inversion Hw; subst b.
     rewrite Nlen_nil. unfold read_batch. cbv zeta.
@@ -566,7 +804,7 @@ Proof.
     replace (0 <=? limit) with true by (symmetry; apply N.leb_le; lia). reflexivity.
   - set (us := u :: t) in *.
     assert (Hpos : 0 < Nlen us) by (unfold us; rewrite Nlen_cons; lia).
-    destruct (read_batch_gen w ps rest Hwf us None (b ++ rest) limit eoi)
+    destruct (read_batch_gen w tb ps rest Hwf Hrest us None (b ++ rest) limit eoi)
       as (s' & inc' & Hrb & Hinv); try assumption; try lia.
     + apply Forall_covered_good; assumption.
     + cbn [stream_inv]. exists b. split; [|reflexivity]. exists (length us). split; [lia|exact Hw].
@@ -577,37 +815,37 @@ Proof.
 Qed.
 
 (* ---------------- 5. streaming: the body read in batches of at most [limit] ---------------- *)
-Fixpoint batches (fuel : nat) (w : N) (ps : list prefix) (n_left : N)
+Fixpoint batches (fuel : nat) (w tb : N) (ps : list prefix) (n_left : N)
          (inc : option (prefix * N)) (limit : N) (s : bits) : list (list N) * bits :=
   match fuel with
   | O => ([], s)
   | S f =>
     if n_left =? 0 then ([], s) else
-    let o := read_batch w ps n_left inc limit false s in
+    let o := read_batch w tb ps n_left inc limit false s in
     match b_status o with
-    | SOk => let '(l, s') := batches f w ps (n_left - Nlen (b_nums o)) (b_incomplete o)
+    | SOk => let '(l, s') := batches f w tb ps (n_left - Nlen (b_nums o)) (b_incomplete o)
                                      limit (b_rest o) in
              (b_nums o :: l, s')
     | _ => ([], s)
     end
   end.
 
-Lemma batches_gen w ps rest limit : wf_table w ps -> 1 <= limit ->
+Lemma batches_gen w tb ps rest limit : wf_table w ps -> enough_rest ps rest -> 1 <= limit ->
   forall fuel us inc s,
   Forall (good ps) us -> Nlen us < 2 ^ 24 -> stream_inv ps inc us s rest ->
   (length us < fuel)%nat ->
-  concat (fst (batches fuel w ps (Nlen us) inc limit s)) = us /\
-  snd (batches fuel w ps (Nlen us) inc limit s) = rest /\
+  concat (fst (batches fuel w tb ps (Nlen us) inc limit s)) = us /\
+  snd (batches fuel w tb ps (Nlen us) inc limit s) = rest /\
   Forall (fun l => (0 < length l <= N.to_nat limit)%nat)
-         (fst (batches fuel w ps (Nlen us) inc limit s)).
+         (fst (batches fuel w tb ps (Nlen us) inc limit s)).
 Proof.
-  intros Hwf Hlim. induction fuel as [|fuel IH]; intros us inc s Hg Hlen Hinv Hfuel; [lia|].
+  intros Hwf Hrest Hlim. induction fuel as [|fuel IH]; intros us inc s Hg Hlen Hinv Hfuel; [lia|].
   cbn [batches].
   destruct (Nlen us =? 0) eqn:E0.
   - apply N.eqb_eq in E0. destruct us as [|u t]; [|rewrite Nlen_cons in E0; lia].
     apply stream_inv_nil in Hinv. destruct Hinv as [_ ->]. cbn [fst snd concat]. auto.
   - apply N.eqb_neq in E0.
-    destruct (read_batch_gen w ps rest Hwf us inc s limit false Hg Hlen Hinv)
+    destruct (read_batch_gen w tb ps rest Hwf Hrest us inc s limit false Hg Hlen Hinv)
       as (s' & inc' & Hrb & Hinv'); try lia.
     rewrite Hrb. cbn [b_status b_nums b_incomplete b_rest].
     set (m := N.to_nat (N.min (Nlen us) limit)) in *.
@@ -621,7 +859,7 @@ Proof.
     + unfold Nlen in *. rewrite skipn_length. lia.
     + exact Hinv'.
     + rewrite skipn_length. lia.
-    + destruct (batches fuel w ps (Nlen (skipn m us)) inc' limit s') as [l s2].
+    + destruct (batches fuel w tb ps (Nlen (skipn m us)) inc' limit s') as [l s2].
       cbn [fst snd] in *. cbn [concat]. rewrite H1, firstn_skipn.
       split; [reflexivity|]. split; [exact H2|].
       constructor; [rewrite Hfl; lia|exact H3].
@@ -630,13 +868,13 @@ Qed.
 Theorem batches_roundtrip : forall w ps us b,
   wf_table w ps -> disjoint_table ps -> Forall (covered ps) us -> Nlen us < 2 ^ 24 ->
   write_body_fuel (length us) ps us = Ok b ->
-  forall rest limit, 1 <= limit ->
-  let r := batches (S (length us)) w ps (Nlen us) None limit (b ++ rest) in
+  forall tb rest limit, enough_rest ps rest -> 1 <= limit ->
+  let r := batches (S (length us)) w tb ps (Nlen us) None limit (b ++ rest) in
   concat (fst r) = us /\ snd r = rest /\
   Forall (fun l => (0 < length l <= N.to_nat limit)%nat) (fst r).
 Proof.
-  intros w ps us b Hwf D Hc Hlen Hw rest limit Hlim. cbv zeta.
-  apply (batches_gen w ps rest limit Hwf Hlim); try assumption.
+  intros w ps us b Hwf D Hc Hlen Hw tb rest limit Hrest Hlim. cbv zeta.
+  apply (batches_gen w tb ps rest limit Hwf Hrest Hlim); try assumption.
   - apply Forall_covered_good; assumption.
   - cbn [stream_inv]. exists b. split; [|reflexivity]. exists (length us). split; [lia|exact Hw].
   - lia.
@@ -644,17 +882,18 @@ Qed.
 
 (* disjoint_table (or at least [good]) is necessary: with overlapping ranges a run
    encodes a number with a prefix whose gcd lattice it is not on; [8; 5] reads back as
-   [8; 4] although the table is valid and both numbers are covered. *)
+   [8; 4] although the table is valid and both numbers are covered (tb = 8: the body
+   padded to one byte). *)
 Example overlap_counterexample :
   let p1 := mkPrefix 1 0 5 [false] None 1 in
   let p2 := mkPrefix 1 4 12 [true] (Some 0) 4 in
   let ps := [p1; p2] in
   wf_table 8 ps /\ Forall (covered ps) [8; 5] /\ ~ disjoint_table ps /\
   exists b, write_body_fuel 2 ps [8; 5] = Ok b /\
-            read_blocks 2 8 ps 2 (b ++ []) = ([8; 4], [], None, SOk).
+            read_blocks 2 8 8 ps 2 (b ++ [false]) = ([8; 4], [false], None, SOk).
 Proof.
   cbv zeta. split; [|split; [|split]].
-  - split; [vm_compute; reflexivity|].
+  - split; [vm_compute; reflexivity|]. split; [|vm_compute; lia].
     constructor; [|constructor; [|constructor]]; unfold wf_prefix;
       cbn [p_gcd p_lower p_upper p_jump]; (split; [lia|split; [lia|split; [vm_compute; discriminate|]]]).
     + intros j H. discriminate.
@@ -667,11 +906,23 @@ Proof.
     assert (H : mkPrefix 1 0 5 [false] None 1 = mkPrefix 1 4 12 [true] (Some 0) 4).
     { apply D; [left; reflexivity|right; left; reflexivity|reflexivity|reflexivity]. }
     discriminate H.
-  - eexists. split; vm_compute; reflexivity.
+  - eexists. split; [vm_compute; reflexivity|vm_compute; reflexivity].
 Qed.
+
+(* some side condition on the bits after the code is necessary: a 1-bit code as the last
+   held bit, just before a 64-bit word boundary, in a table whose longest code has 2 bits
+   (stride 2 crosses into a word that does not exist) *)
+Example enough_rest_needed :
+  let p := mkPrefix 1 0 0 [false] None 1 in
+  let ps := [p; mkPrefix 1 1 1 [true; false] None 1; mkPrefix 1 2 2 [true; true] None 1] in
+  table_ok ps = true /\ In p ps /\
+  read_code ps (p_code p ++ []) = Ok (p, []) /\
+  read_code_at 64 ps (p_code p ++ []) = Err InsufficientData.
+Proof. cbv zeta. repeat split; try (vm_compute; reflexivity). left. reflexivity. Qed.
 
 Print Assumptions table_ok_prefix_free.
 Print Assumptions read_code_app.
+Print Assumptions read_code_at_enough.
 Print Assumptions body_roundtrip.
 Print Assumptions write_body_roundtrip.
 Print Assumptions batch_roundtrip.
